@@ -233,7 +233,7 @@ A_ReferenceErrorProto == 6
 A_RangeErrorProto == 7
 A_SyntaxErrorProto == 8
 A_GeneratorProto == 9
-A_PrimProto == 10        \* stands for String/Number/Boolean/Symbol.prototype (no modelled members)
+A_IteratorProto == 10    \* %IteratorPrototype%
 A_Global == 11           \* the global object: only its identity is modelled
 A_Error == 12
 A_TypeError == 13
@@ -269,7 +269,12 @@ A_ArrJoin == 42
 A_ArrToString == 43
 A_ErrToString == 44
 A_HasOwn == 45
-NIntrinsics == 45
+A_StringProto == 46
+A_NumberProto == 47
+A_BooleanProto == 48
+A_SymbolProto == 49
+A_IterSelf == 50
+NIntrinsics == 50
 
 ErrorProtoOf(cls) ==
   CASE cls = "Error" -> A_ErrorProto
@@ -314,26 +319,32 @@ S_join == <<106,111,105,110>>
 S_hasOwnProperty == <<104,97,115,79,119,110,80,114,111,112,101,114,116,121>>
 
 ErrCtor(nm, protoAddr) == NatObj(nm, TRUE, <<[HiddenProp(S_prototype, Obj(protoAddr)) EXCEPT !.w = FALSE, !.c = FALSE]>>)
-ErrProto(parent, ctorAddr) ==
-  IntrObj(parent, <<HiddenProp(S_constructor, Obj(ctorAddr)), HiddenProp(S_message, OOM), HiddenProp(S_name, OOM)>>)
+\* 20.5.3 / 20.5.6.3: constructor, message = "", name = the class name
+ErrProto(parent, ctorAddr, nm) ==
+  IntrObj(parent, <<HiddenProp(S_constructor, Obj(ctorAddr)), HiddenProp(S_message, Str(<<>>)), HiddenProp(S_name, Str(nm))>>)
+S_Error == <<69,114,114,111,114>>
+S_TypeError == <<84,121,112,101>> \o S_Error
+S_ReferenceError == <<82,101,102,101,114,101,110,99,101>> \o S_Error
+S_RangeError == <<82,97,110,103,101>> \o S_Error
+S_SyntaxError == <<83,121,110,116,97,120>> \o S_Error
 Native(nm) == NatObj(nm, FALSE, <<>>)
 
 InitHeap == <<
   (* 1 *) IntrObj(0, <<HiddenProp(S_constructor, Obj(A_Object)), HiddenProp(S_valueOf, Obj(A_ObjValueOf)),
                        HiddenProp(S_toString, Obj(A_ObjToString)), HiddenProp(S_hasOwnProperty, Obj(A_HasOwn))>>),
-  (* 2 *) NatObj("FunctionPrototype", FALSE, <<HiddenProp(SymKey(3), OOM), HiddenProp(S_call, Obj(A_FnCall)),
-                       HiddenProp(S_apply, Obj(A_FnApply)), HiddenProp(S_bind, Obj(A_FnBind))>>),
+  (* 2 *) [NatObj("FunctionPrototype", FALSE, <<HiddenProp(SymKey(3), OOM), HiddenProp(S_call, Obj(A_FnCall)),
+                       HiddenProp(S_apply, Obj(A_FnApply)), HiddenProp(S_bind, Obj(A_FnBind))>>) EXCEPT !.proto = A_ObjectProto],
   (* 3 *) [ArrObj(<<>>) EXCEPT !.proto = A_ObjectProto, !.intr = TRUE,
               !.props = <<HiddenProp(S_constructor, Obj(A_Array)), HiddenProp(S_values, Obj(A_ArrValues)),
                           HiddenProp(SymKey(1), Obj(A_ArrValues)), HiddenProp(S_push, Obj(A_ArrPush)),
                           HiddenProp(S_join, Obj(A_ArrJoin)), HiddenProp(S_toString, Obj(A_ArrToString))>>],
-  (* 4 *) [ErrProto(A_ObjectProto, A_Error) EXCEPT !.props = @ \o <<HiddenProp(S_toString, Obj(A_ErrToString))>>],
-  (* 5 *) ErrProto(A_ErrorProto, A_TypeError),
-  (* 6 *) ErrProto(A_ErrorProto, A_ReferenceError),
-  (* 7 *) ErrProto(A_ErrorProto, A_RangeError),
-  (* 8 *) ErrProto(A_ErrorProto, A_SyntaxError),
+  (* 4 *) [ErrProto(A_ObjectProto, A_Error, S_Error) EXCEPT !.props = @ \o <<HiddenProp(S_toString, Obj(A_ErrToString))>>],
+  (* 5 *) ErrProto(A_ErrorProto, A_TypeError, S_TypeError),
+  (* 6 *) ErrProto(A_ErrorProto, A_ReferenceError, S_ReferenceError),
+  (* 7 *) ErrProto(A_ErrorProto, A_RangeError, S_RangeError),
+  (* 8 *) ErrProto(A_ErrorProto, A_SyntaxError, S_SyntaxError),
   (* 9 *) IntrObj(A_ObjectProto, <<HiddenProp(S_next, Obj(A_GenNext)), HiddenProp(S_return, Obj(A_GenReturn)),
-                       HiddenProp(S_throw, Obj(A_GenThrow)), HiddenProp(SymKey(1), OOM)>>),
+                       HiddenProp(S_throw, Obj(A_GenThrow)), HiddenProp(SymKey(1), Obj(A_IterSelf))>>),
   (* 10 *) IntrObj(A_ObjectProto, <<HiddenProp(SymKey(1), OOM)>>),
   (* 11 *) [IntrObj(A_ObjectProto, <<>>) EXCEPT !.cls = "glob"],
   (* 12 *) ErrCtor("Error", A_ErrorProto),
@@ -354,7 +365,7 @@ InitHeap == <<
                        [HiddenProp(S_hasInstance, SymHasInstance) EXCEPT !.w = FALSE, !.c = FALSE]>>),
   (* 22 *) Native("Array.isArray"),
   (* 23 *) Native("Object.keys"),
-  (* 24 *) IntrObj(A_ObjectProto, <<HiddenProp(S_next, Obj(A_ArrIterNext)), HiddenProp(SymKey(1), OOM)>>),
+  (* 24 *) IntrObj(A_ObjectProto, <<HiddenProp(S_next, Obj(A_ArrIterNext)), HiddenProp(SymKey(1), Obj(A_IterSelf))>>),
   (* 25 *) Native("Array.prototype.values"),
   (* 26 *) Native("ArrayIterator.next"),
   (* 27 *) Native("Generator.prototype.next"),
@@ -375,8 +386,152 @@ InitHeap == <<
   (* 42 *) Native("Array.prototype.join"),
   (* 43 *) Native("Array.prototype.toString"),
   (* 44 *) Native("Error.prototype.toString"),
-  (* 45 *) Native("Object.prototype.hasOwnProperty")
+  (* 45 *) Native("Object.prototype.hasOwnProperty"),
+  (* 46 *) IntrObj(A_ObjectProto, <<HiddenProp(SymKey(1), OOM)>>),       \* String.prototype (members not modelled)
+  (* 47 *) IntrObj(A_ObjectProto, <<>>),                                 \* Number.prototype
+  (* 48 *) IntrObj(A_ObjectProto, <<>>),                                 \* Boolean.prototype
+  (* 49 *) IntrObj(A_ObjectProto, <<>>),                                 \* Symbol.prototype
+  (* 50 *) Native("Iterator.prototype[@@iterator]")
 >>
+
+(* Names of the properties the built-in objects have in a conforming engine (ECMA-262 incl. Annex B and current
+   proposals, as listed by V8).  A name in the set that has no modelled property is "present but not modelled":
+   looking it up ends the run in OutOfModel.  Any other name is genuinely absent. *)
+\* __defineGetter__ __defineSetter__ __lookupGetter__ __lookupSetter__ __proto__ constructor hasOwnProperty
+\* isPrototypeOf propertyIsEnumerable toLocaleString toString valueOf
+Names_ObjectProto == {
+  <<95,95,100,101,102,105,110,101,71,101,116,116,101,114,95,95>>,
+  <<95,95,100,101,102,105,110,101,83,101,116,116,101,114,95,95>>,
+  <<95,95,108,111,111,107,117,112,71,101,116,116,101,114,95,95>>,
+  <<95,95,108,111,111,107,117,112,83,101,116,116,101,114,95,95>>, <<95,95,112,114,111,116,111,95,95>>,
+  <<99,111,110,115,116,114,117,99,116,111,114>>, <<104,97,115,79,119,110,80,114,111,112,101,114,116,121>>,
+  <<105,115,80,114,111,116,111,116,121,112,101,79,102>>,
+  <<112,114,111,112,101,114,116,121,73,115,69,110,117,109,101,114,97,98,108,101>>,
+  <<116,111,76,111,99,97,108,101,83,116,114,105,110,103>>, <<116,111,83,116,114,105,110,103>>,
+  <<118,97,108,117,101,79,102>>}
+\* apply arguments bind call caller constructor length name toString
+Names_FunctionProto == {
+  <<97,112,112,108,121>>, <<97,114,103,117,109,101,110,116,115>>, <<98,105,110,100>>, <<99,97,108,108>>,
+  <<99,97,108,108,101,114>>, <<99,111,110,115,116,114,117,99,116,111,114>>, <<108,101,110,103,116,104>>,
+  <<110,97,109,101>>, <<116,111,83,116,114,105,110,103>>}
+\* at concat constructor copyWithin entries every fill filter find findIndex findLast findLastIndex flat flatMap
+\* forEach group groupToMap includes indexOf join keys lastIndexOf length map pop push reduce reduceRight reverse
+\* shift slice some sort splice toLocaleString toReversed toSorted toSpliced toString unshift values with
+Names_ArrayProto == {
+  <<97,116>>, <<99,111,110,99,97,116>>, <<99,111,110,115,116,114,117,99,116,111,114>>,
+  <<99,111,112,121,87,105,116,104,105,110>>, <<101,110,116,114,105,101,115>>, <<101,118,101,114,121>>,
+  <<102,105,108,108>>, <<102,105,108,116,101,114>>, <<102,105,110,100>>, <<102,105,110,100,73,110,100,101,120>>,
+  <<102,105,110,100,76,97,115,116>>, <<102,105,110,100,76,97,115,116,73,110,100,101,120>>, <<102,108,97,116>>,
+  <<102,108,97,116,77,97,112>>, <<102,111,114,69,97,99,104>>, <<103,114,111,117,112>>,
+  <<103,114,111,117,112,84,111,77,97,112>>, <<105,110,99,108,117,100,101,115>>, <<105,110,100,101,120,79,102>>,
+  <<106,111,105,110>>, <<107,101,121,115>>, <<108,97,115,116,73,110,100,101,120,79,102>>,
+  <<108,101,110,103,116,104>>, <<109,97,112>>, <<112,111,112>>, <<112,117,115,104>>, <<114,101,100,117,99,101>>,
+  <<114,101,100,117,99,101,82,105,103,104,116>>, <<114,101,118,101,114,115,101>>, <<115,104,105,102,116>>,
+  <<115,108,105,99,101>>, <<115,111,109,101>>, <<115,111,114,116>>, <<115,112,108,105,99,101>>,
+  <<116,111,76,111,99,97,108,101,83,116,114,105,110,103>>, <<116,111,82,101,118,101,114,115,101,100>>,
+  <<116,111,83,111,114,116,101,100>>, <<116,111,83,112,108,105,99,101,100>>, <<116,111,83,116,114,105,110,103>>,
+  <<117,110,115,104,105,102,116>>, <<118,97,108,117,101,115>>, <<119,105,116,104>>}
+\* cause constructor message name stack toString
+Names_ErrorProto == {
+  <<99,97,117,115,101>>, <<99,111,110,115,116,114,117,99,116,111,114>>, <<109,101,115,115,97,103,101>>,
+  <<110,97,109,101>>, <<115,116,97,99,107>>, <<116,111,83,116,114,105,110,103>>}
+\* anchor at big blink bold charAt charCodeAt codePointAt concat constructor endsWith fixed fontcolor fontsize
+\* includes indexOf isWellFormed italics lastIndexOf length link localeCompare match matchAll normalize padEnd
+\* padStart repeat replace replaceAll search slice small split startsWith strike sub substr substring sup
+\* toLocaleLowerCase toLocaleUpperCase toLowerCase toString toUpperCase toWellFormed trim trimEnd trimLeft
+\* trimRight trimStart valueOf
+Names_StringProto == {
+  <<97,110,99,104,111,114>>, <<97,116>>, <<98,105,103>>, <<98,108,105,110,107>>, <<98,111,108,100>>,
+  <<99,104,97,114,65,116>>, <<99,104,97,114,67,111,100,101,65,116>>, <<99,111,100,101,80,111,105,110,116,65,116>>,
+  <<99,111,110,99,97,116>>, <<99,111,110,115,116,114,117,99,116,111,114>>, <<101,110,100,115,87,105,116,104>>,
+  <<102,105,120,101,100>>, <<102,111,110,116,99,111,108,111,114>>, <<102,111,110,116,115,105,122,101>>,
+  <<105,110,99,108,117,100,101,115>>, <<105,110,100,101,120,79,102>>,
+  <<105,115,87,101,108,108,70,111,114,109,101,100>>, <<105,116,97,108,105,99,115>>,
+  <<108,97,115,116,73,110,100,101,120,79,102>>, <<108,101,110,103,116,104>>, <<108,105,110,107>>,
+  <<108,111,99,97,108,101,67,111,109,112,97,114,101>>, <<109,97,116,99,104>>, <<109,97,116,99,104,65,108,108>>,
+  <<110,111,114,109,97,108,105,122,101>>, <<112,97,100,69,110,100>>, <<112,97,100,83,116,97,114,116>>,
+  <<114,101,112,101,97,116>>, <<114,101,112,108,97,99,101>>, <<114,101,112,108,97,99,101,65,108,108>>,
+  <<115,101,97,114,99,104>>, <<115,108,105,99,101>>, <<115,109,97,108,108>>, <<115,112,108,105,116>>,
+  <<115,116,97,114,116,115,87,105,116,104>>, <<115,116,114,105,107,101>>, <<115,117,98>>, <<115,117,98,115,116,114>>,
+  <<115,117,98,115,116,114,105,110,103>>, <<115,117,112>>,
+  <<116,111,76,111,99,97,108,101,76,111,119,101,114,67,97,115,101>>,
+  <<116,111,76,111,99,97,108,101,85,112,112,101,114,67,97,115,101>>, <<116,111,76,111,119,101,114,67,97,115,101>>,
+  <<116,111,83,116,114,105,110,103>>, <<116,111,85,112,112,101,114,67,97,115,101>>,
+  <<116,111,87,101,108,108,70,111,114,109,101,100>>, <<116,114,105,109>>, <<116,114,105,109,69,110,100>>,
+  <<116,114,105,109,76,101,102,116>>, <<116,114,105,109,82,105,103,104,116>>, <<116,114,105,109,83,116,97,114,116>>,
+  <<118,97,108,117,101,79,102>>}
+\* constructor toExponential toFixed toLocaleString toPrecision toString valueOf
+Names_NumberProto == {
+  <<99,111,110,115,116,114,117,99,116,111,114>>, <<116,111,69,120,112,111,110,101,110,116,105,97,108>>,
+  <<116,111,70,105,120,101,100>>, <<116,111,76,111,99,97,108,101,83,116,114,105,110,103>>,
+  <<116,111,80,114,101,99,105,115,105,111,110>>, <<116,111,83,116,114,105,110,103>>, <<118,97,108,117,101,79,102>>}
+\* constructor toString valueOf
+Names_BooleanProto == {
+  <<99,111,110,115,116,114,117,99,116,111,114>>, <<116,111,83,116,114,105,110,103>>, <<118,97,108,117,101,79,102>>}
+\* constructor description toString valueOf
+Names_SymbolProto == {
+  <<99,111,110,115,116,114,117,99,116,111,114>>, <<100,101,115,99,114,105,112,116,105,111,110>>,
+  <<116,111,83,116,114,105,110,103>>, <<118,97,108,117,101,79,102>>}
+\* constructor drop every filter find flatMap forEach map next reduce return some take throw toArray
+Names_IterProto == {
+  <<99,111,110,115,116,114,117,99,116,111,114>>, <<100,114,111,112>>, <<101,118,101,114,121>>,
+  <<102,105,108,116,101,114>>, <<102,105,110,100>>, <<102,108,97,116,77,97,112>>, <<102,111,114,69,97,99,104>>,
+  <<109,97,112>>, <<110,101,120,116>>, <<114,101,100,117,99,101>>, <<114,101,116,117,114,110>>, <<115,111,109,101>>,
+  <<116,97,107,101>>, <<116,104,114,111,119>>, <<116,111,65,114,114,97,121>>}
+\* EPSILON MAX_SAFE_INTEGER MAX_VALUE MIN_SAFE_INTEGER MIN_VALUE NEGATIVE_INFINITY NaN POSITIVE_INFINITY
+\* arguments assign asyncDispose asyncIterator caller captureStackTrace create defineProperties defineProperty
+\* dispose entries for freeze from fromCharCode fromCodePoint fromEntries getOwnPropertyDescriptor
+\* getOwnPropertyDescriptors getOwnPropertyNames getOwnPropertySymbols getPrototypeOf hasInstance hasOwn is
+\* isArray isConcatSpreadable isExtensible isFinite isFrozen isInteger isNaN isSafeInteger isSealed iterator
+\* keyFor keys length match matchAll name of parseFloat parseInt prepareStackTrace preventExtensions prototype
+\* raw replace seal search setPrototypeOf species split stackTraceLimit toPrimitive toStringTag unscopables
+\* values
+Names_Ctor == {
+  <<69,80,83,73,76,79,78>>, <<77,65,88,95,83,65,70,69,95,73,78,84,69,71,69,82>>, <<77,65,88,95,86,65,76,85,69>>,
+  <<77,73,78,95,83,65,70,69,95,73,78,84,69,71,69,82>>, <<77,73,78,95,86,65,76,85,69>>,
+  <<78,69,71,65,84,73,86,69,95,73,78,70,73,78,73,84,89>>, <<78,97,78>>,
+  <<80,79,83,73,84,73,86,69,95,73,78,70,73,78,73,84,89>>, <<97,114,103,117,109,101,110,116,115>>,
+  <<97,115,115,105,103,110>>, <<97,115,121,110,99,68,105,115,112,111,115,101>>,
+  <<97,115,121,110,99,73,116,101,114,97,116,111,114>>, <<99,97,108,108,101,114>>,
+  <<99,97,112,116,117,114,101,83,116,97,99,107,84,114,97,99,101>>, <<99,114,101,97,116,101>>,
+  <<100,101,102,105,110,101,80,114,111,112,101,114,116,105,101,115>>,
+  <<100,101,102,105,110,101,80,114,111,112,101,114,116,121>>, <<100,105,115,112,111,115,101>>,
+  <<101,110,116,114,105,101,115>>, <<102,111,114>>, <<102,114,101,101,122,101>>, <<102,114,111,109>>,
+  <<102,114,111,109,67,104,97,114,67,111,100,101>>, <<102,114,111,109,67,111,100,101,80,111,105,110,116>>,
+  <<102,114,111,109,69,110,116,114,105,101,115>>,
+  <<103,101,116,79,119,110,80,114,111,112,101,114,116,121,68,101,115,99,114,105,112,116,111,114>>,
+  <<103,101,116,79,119,110,80,114,111,112,101,114,116,121,68,101,115,99,114,105,112,116,111,114,115>>,
+  <<103,101,116,79,119,110,80,114,111,112,101,114,116,121,78,97,109,101,115>>,
+  <<103,101,116,79,119,110,80,114,111,112,101,114,116,121,83,121,109,98,111,108,115>>,
+  <<103,101,116,80,114,111,116,111,116,121,112,101,79,102>>, <<104,97,115,73,110,115,116,97,110,99,101>>,
+  <<104,97,115,79,119,110>>, <<105,115>>, <<105,115,65,114,114,97,121>>,
+  <<105,115,67,111,110,99,97,116,83,112,114,101,97,100,97,98,108,101>>,
+  <<105,115,69,120,116,101,110,115,105,98,108,101>>, <<105,115,70,105,110,105,116,101>>,
+  <<105,115,70,114,111,122,101,110>>, <<105,115,73,110,116,101,103,101,114>>, <<105,115,78,97,78>>,
+  <<105,115,83,97,102,101,73,110,116,101,103,101,114>>, <<105,115,83,101,97,108,101,100>>,
+  <<105,116,101,114,97,116,111,114>>, <<107,101,121,70,111,114>>, <<107,101,121,115>>, <<108,101,110,103,116,104>>,
+  <<109,97,116,99,104>>, <<109,97,116,99,104,65,108,108>>, <<110,97,109,101>>, <<111,102>>,
+  <<112,97,114,115,101,70,108,111,97,116>>, <<112,97,114,115,101,73,110,116>>,
+  <<112,114,101,112,97,114,101,83,116,97,99,107,84,114,97,99,101>>,
+  <<112,114,101,118,101,110,116,69,120,116,101,110,115,105,111,110,115>>, <<112,114,111,116,111,116,121,112,101>>,
+  <<114,97,119>>, <<114,101,112,108,97,99,101>>, <<115,101,97,108>>, <<115,101,97,114,99,104>>,
+  <<115,101,116,80,114,111,116,111,116,121,112,101,79,102>>, <<115,112,101,99,105,101,115>>, <<115,112,108,105,116>>,
+  <<115,116,97,99,107,84,114,97,99,101,76,105,109,105,116>>, <<116,111,80,114,105,109,105,116,105,118,101>>,
+  <<116,111,83,116,114,105,110,103,84,97,103>>, <<117,110,115,99,111,112,97,98,108,101,115>>,
+  <<118,97,108,117,101,115>>}
+IntrNames(a) ==
+  CASE a = A_ObjectProto -> Names_ObjectProto
+    [] a = A_FunctionProto -> Names_FunctionProto
+    [] a = A_ArrayProto -> Names_ArrayProto
+    [] a = A_ErrorProto -> Names_ErrorProto
+    [] a \in {A_TypeErrorProto, A_ReferenceErrorProto, A_RangeErrorProto, A_SyntaxErrorProto} -> {S_constructor, S_message, S_name}
+    [] a = A_GeneratorProto -> Names_IterProto
+    [] a \in {A_IteratorProto, A_ArrayIteratorProto} -> Names_IterProto \ {S_return, S_throw}
+    [] a = A_StringProto -> Names_StringProto
+    [] a = A_NumberProto -> Names_NumberProto
+    [] a = A_BooleanProto -> Names_BooleanProto
+    [] a = A_SymbolProto -> Names_SymbolProto
+    [] OTHER -> Names_Ctor
 
 IsCallableObj(h, a) == h[a].cls \in {"fun", "nat", "bound"}
 IsCallable(h, v) == v.t = "obj" /\ IsCallableObj(h, v.a)
@@ -401,11 +556,16 @@ FindProp(h, a, key) ==
   IF a = 0 THEN <<>>
   ELSE LET d == OwnDesc(h[a], key)
        IN IF Len(d) > 0 THEN d
-          ELSE IF h[a].intr /\ ~PlainKey(key) THEN <<DataProp(key, OOM)>>
+          ELSE IF h[a].intr /\ a <= NIntrinsics /\ key \in IntrNames(a) THEN <<DataProp(key, OOM)>>
           ELSE FindProp(h, h[a].proto, key)
 
 \* where property lookup starts for a base value (ToObject of a primitive base, 6.2.5.5 GetValue)
-LookupStart(v) == IF v.t = "obj" THEN v.a ELSE A_PrimProto
+LookupStart(v) ==
+  CASE v.t = "obj" -> v.a
+    [] v.t = "str" -> A_StringProto
+    [] v.t = "num" -> A_NumberProto
+    [] v.t = "bool" -> A_BooleanProto
+    [] v.t = "sym" -> A_SymbolProto
 
 \* own property of a String value (10.4.3): length and index properties
 StrOwn(s, key) ==
@@ -594,7 +754,7 @@ Ev(n) == [m |-> "ev", n |-> n]
 EvRef(n) == [m |-> "evref", n |-> n]
 Ret(v) == [m |-> "ret", v |-> v]
 Abr(kind, v, l) == [m |-> "abr", kind |-> kind, v |-> v, l |-> l]
-CallC(f, this, args, nt) == [m |-> "call", f |-> f, this |-> this, args |-> args, nt |-> nt]
+CallC(f, this, args, nt) == [m |-> "call", f |-> f, this |-> this, args |-> args, nt |-> nt, pre |-> Undef]
 Done(comp, v) == [m |-> "done", comp |-> comp, v |-> v]
 
 \* Reference Records (6.2.5): an identifier reference or a property reference whose name may still be
@@ -1263,6 +1423,7 @@ GetFrom(base, key, this, kk) ==
        IN IF Len(d) = 0 THEN Go(Ret(Undef), kk)
           ELSE IF d[1].acc
           THEN (IF d[1].g.t = "undef" THEN Go(Ret(Undef), kk) ELSE Go(CallC(d[1].g, this, <<>>, Undef), kk))
+          ELSE IF d[1].v.t = "oom" THEN OutOfModel("unmodelled built-in property " \o ToString(key))
           ELSE Go(Ret(d[1].v), kk)
 
 \* 6.2.5.5 GetValue
@@ -1398,32 +1559,546 @@ RetObjectValue ==
           ELSE IF cv.t = "null" THEN GoH(Ret(Empty), rest, [heap EXCEPT ![fr.a].proto = 0])
           ELSE Go(Ret(Empty), rest)
      ELSE GoH(Ret(Empty), rest, [heap EXCEPT ![fr.a] = DefineOwn(@, DataProp(fr.key, cv))])
-\* 7.3.26 CopyDataProperties(target, source, {}) for a spread property: data properties only
-RetObjectSpread ==
-  /\ fr.f = "objspread"
-  /\ IF IsNullish(cv) \/ cv.t \in {"bool", "num", "sym"} THEN Go(Ret(Empty), rest)
-     ELSE IF cv.t = "str"
-     THEN GoH(Ret(Empty), rest,
-              [heap EXCEPT ![fr.a].props = @ \o [i \in 1..Len(cv.s) |-> DataProp(NumToStr(Num(i - 1)), Str(<<cv.s[i]>>))]])
-     ELSE LET src == heap[cv.a]
-              keys == SelectSeq(OwnKeys(src), LAMBDA x : OwnDesc(src, x)[1].e)
-          IN IF src.cls \notin {"ord", "arr", "err", "args"} \/ \E i \in DOMAIN keys : OwnDesc(src, keys[i])[1].acc
-             THEN OutOfModel("spread of accessor or exotic object")
-             ELSE LET RECURSIVE Copy(_, _)
-                      Copy(o, i) == IF i > Len(keys) THEN o
-                                    ELSE Copy(DefineOwn(o, DataProp(keys[i], OwnDesc(src, keys[i])[1].v)), i + 1)
-                  IN GoH(Ret(Empty), rest, [heap EXCEPT ![fr.a] = Copy(@, 1)])
+\* 7.3.26 CopyDataProperties(target, source, excluded): own keys snapshot; each enumerable property still present
+\* is read with Get (getters run, in key order) and defined on the target with CreateDataPropertyOrThrow
+OpCopyProps(tgt, src, excl) == [m |-> "op", op |-> "copyprops", tgt |-> tgt, src |-> src, excl |-> excl]
+OpCopyDataProperties ==
+  /\ c.op = "copyprops"
+  /\ IF IsNullish(c.src) \/ c.src.t \in {"bool", "num", "sym"} THEN Go(Ret(Empty), k)
+     ELSE IF c.src.t = "str"
+     THEN LET ks == SelectSeq([i \in 1..Len(c.src.s) |-> i], LAMBDA i : NumToStr(Num(i - 1)) \notin Range(c.excl))
+              RECURSIVE Put(_, _)
+              Put(o, j) == IF j > Len(ks) THEN o ELSE Put(DefineOwn(o, DataProp(NumToStr(Num(ks[j] - 1)), Str(<<c.src.s[ks[j]]>>))), j + 1)
+          IN GoH(Ret(Empty), k, [heap EXCEPT ![c.tgt] = Put(@, 1)])
+     ELSE IF heap[c.src.a].cls = "glob" THEN OutOfModel("spread of the global object")
+     ELSE Go(Ret(Empty), Push([f |-> "cpy", e |-> env, tgt |-> c.tgt, src |-> c.src, i |-> 0,
+                               keys |-> SelectSeq(OwnKeys(heap[c.src.a]), LAMBDA x : x \notin Range(c.excl))]))
+RECURSIVE NextCopyKey(_, _, _)
+\* index of the next key (after i) that is still an enumerable own property, or 0
+NextCopyKey(o, keys, i) ==
+  IF i > Len(keys) THEN 0
+  ELSE LET d == OwnDesc(o, keys[i]) IN IF Len(d) = 1 /\ d[1].e THEN i ELSE NextCopyKey(o, keys, i + 1)
+RetCopyDataProperties ==
+  /\ fr.f = "cpy"
+  /\ LET h1 == IF fr.i = 0 THEN heap ELSE [heap EXCEPT ![fr.tgt] = DefineOwn(@, DataProp(fr.keys[fr.i], cv))]
+         j == NextCopyKey(h1[fr.src.a], fr.keys, fr.i + 1)
+     IN IF j = 0 THEN GoH(Ret(Empty), rest, h1)
+        ELSE GoH(OpGetV(PropRef(fr.src, KeyToValue(fr.keys[j]))), <<[fr EXCEPT !.i = j]>> \o rest, h1)
+RetObjectSpread == fr.f = "objspread" /\ Go(OpCopyProps(fr.a, cv, <<>>), rest)
 
-ExtraRetFrames == {"objlit", "objk", "objv", "objspread"}
-ExtraRetRules ==
-  CASE fr.f = "objlit" -> RetObjectLiteral
-    [] fr.f = "objk" -> RetObjectKey
-    [] fr.f = "objv" -> RetObjectValue
-    [] fr.f = "objspread" -> RetObjectSpread
-ExtraAbrFrames == {}
-ExtraAbrRules == FALSE
-ExtraOpRules == OutOfModel("no rule for operation " \o c.op)
-ExtraCallRules == OutOfModel("no rule for callee class " \o heap[c.f.a].cls)
+-----------------------------------------------------------------------------
+(* Iteration (ECMA-262 7.4 Operations on Iterator Objects).  Iterator Records and step results travel as    *)
+(* pseudo values: [t |-> "iter", it, nx] and [t |-> "step", done, v].                                        *)
+
+IterRec(it, nx) == [t |-> "iter", it |-> it, nx |-> nx]
+StepRes(done, val) == [t |-> "step", done |-> done, v |-> val]
+OpIterStep(iter) == [m |-> "op", op |-> "iterstep", iter |-> iter]
+OpIterClose(iter, comp) == [m |-> "op", op |-> "iterclose", iter |-> iter, comp |-> comp]
+
+\* 7.4.3 GetIterator(obj, sync): GetMethod(obj, @@iterator), Call, the result must be an object, Get "next"
+OpIteratorOpen ==
+  /\ c.op = "iteropen"
+  /\ IF IsNullish(c.v) THEN ThrowErr("TypeError", k)
+     ELSE LET d == FindOnValue(heap, c.v, SymKey(1))
+          IN IF Len(d) = 0 THEN ThrowErr("TypeError", k)
+             ELSE IF d[1].acc \/ d[1].v.t = "oom" THEN OutOfModel("unmodelled @@iterator")
+             ELSE IF ~IsCallable(heap, d[1].v) THEN ThrowErr("TypeError", k)
+             ELSE Go(CallC(d[1].v, c.v, <<>>, Undef), Push([f |-> "iter_o", e |-> env]))
+RetIteratorObject ==
+  /\ fr.f = "iter_o"
+  /\ IF cv.t # "obj" THEN ThrowErr("TypeError", rest)
+     ELSE Go(OpGetV(PropRef(cv, Str(S_next))), <<[f |-> "iter_n", e |-> fr.e, it |-> cv]>> \o rest)
+RetIteratorNext == fr.f = "iter_n" /\ Go(Ret(IterRec(fr.it, cv)), rest)
+
+\* 7.4.8 IteratorStepValue: Call(next), result must be an object (7.4.4 IteratorNext), IteratorComplete, IteratorValue
+OpIteratorStep ==
+  /\ c.op = "iterstep"
+  /\ IF ~IsCallable(heap, c.iter.nx) THEN ThrowErr("TypeError", k)
+     ELSE Go(CallC(c.iter.nx, c.iter.it, <<>>, Undef), Push([f |-> "step_r", e |-> env]))
+RetStepResult ==
+  /\ fr.f = "step_r"
+  /\ IF cv.t # "obj" THEN ThrowErr("TypeError", rest)
+     ELSE Go(OpGetV(PropRef(cv, Str(S_done))), <<[f |-> "step_d", e |-> fr.e, r |-> cv]>> \o rest)
+RetStepDone ==
+  /\ fr.f = "step_d"
+  /\ IF ToBoolean(cv) THEN Go(Ret(StepRes(TRUE, Undef)), rest)
+     ELSE Go(OpGetV(PropRef(fr.r, Str(S_value))), <<[f |-> "step_v", e |-> fr.e]>> \o rest)
+RetStepValue == fr.f = "step_v" /\ Go(Ret(StepRes(FALSE, cv)), rest)
+
+\* 7.4.11 IteratorClose(iteratorRecord, completion): GetMethod(iterator, "return"), Call; a throw completion
+\* wins over anything the return method does; otherwise its throw wins, and its result must be an object.
+\* The operation ends by resuming `comp` (a control record: Ret(v) or an abrupt completion).
+OpIteratorClose ==
+  /\ c.op = "iterclose"
+  /\ Go(OpGetV(PropRef(c.iter.it, Str(S_return))), Push([f |-> "iterclose", e |-> env, it |-> c.iter.it, comp |-> c.comp, st |-> "get"]))
+IsThrowComp(comp) == comp.m = "abr" /\ comp.kind = "throw"
+RetIteratorClose ==
+  /\ fr.f = "iterclose"
+  /\ IF fr.st = "get"
+     THEN IF IsNullish(cv) THEN GoE(fr.comp, rest, fr.e)
+          ELSE IF ~IsCallable(heap, cv) THEN (IF IsThrowComp(fr.comp) THEN GoE(fr.comp, rest, fr.e) ELSE ThrowErr("TypeError", rest))
+          ELSE Go(CallC(cv, fr.it, <<>>, Undef), <<[fr EXCEPT !.st = "call"]>> \o rest)
+     ELSE IF IsThrowComp(fr.comp) THEN GoE(fr.comp, rest, fr.e)
+          ELSE IF cv.t # "obj" THEN ThrowErr("TypeError", rest)
+          ELSE GoE(fr.comp, rest, fr.e)
+AbrIteratorClose ==
+  /\ fr.f = "iterclose"
+  /\ IF ak = "throw" /\ IsThrowComp(fr.comp) THEN GoE(fr.comp, rest, fr.e) ELSE GoE(c, rest, fr.e)
+
+\* spread / rest collection: all remaining values of an iterator as a list (13.2.4.1, 13.3.8.1)
+RetCollect ==
+  /\ fr.f = "collect"
+  /\ IF cv.t = "iter" THEN Go(OpIterStep(cv), <<[fr EXCEPT !.it = cv]>> \o rest)
+     ELSE IF cv.done THEN Go(Ret(List(fr.acc)), rest)
+     ELSE IF Len(fr.acc) >= MaxArrayLen THEN OutOfModel("spread too long")
+     ELSE Go(OpIterStep(fr.it), <<[fr EXCEPT !.acc = Append(@, cv.v)]>> \o rest)
+
+\* 23.1.5 Array Iterator objects: CreateArrayIterator(array, value) / %ArrayIteratorPrototype%.next
+ArrIterObj(a) == [cls |-> "arriter", proto |-> A_ArrayIteratorProto, props |-> <<>>, ext |-> TRUE, intr |-> FALSE,
+                  arr |-> a, idx |-> 0, fin |-> FALSE]
+\* 7.4.14 CreateIterResultObject
+IterResultObj(val, done) == OrdObj(A_ObjectProto, <<DataProp(S_value, val), DataProp(S_done, Bool(done))>>)
+CallArrayIterNatives(nm) ==
+  IF nm = "Array.prototype.values"
+  THEN IF c.this.t # "obj" \/ heap[c.this.a].cls # "arr" THEN OutOfModel("array iterator over a non-array")
+       ELSE GoH(Ret(Obj(Len(heap) + 1)), k, Append(heap, ArrIterObj(c.this.a)))
+  ELSE \* ArrayIterator.next
+       IF c.this.t # "obj" \/ heap[c.this.a].cls # "arriter" THEN ThrowErr("TypeError", k)
+       ELSE LET it == heap[c.this.a]
+                els == heap[it.arr].elems
+                ra == Len(heap) + 1
+            IN IF it.fin \/ it.idx >= Len(els)
+               THEN GoH(Ret(Obj(ra)), k, Append([heap EXCEPT ![c.this.a].fin = TRUE], IterResultObj(Undef, TRUE)))
+               ELSE IF els[it.idx + 1].t = "hole" /\ Len(FindProp(heap, heap[it.arr].proto, NumToStr(Num(it.idx)))) > 0
+               THEN OutOfModel("array hole backed by a prototype property")
+               ELSE GoH(Ret(Obj(ra)), k,
+                        Append([heap EXCEPT ![c.this.a].idx = @ + 1],
+                               IterResultObj(IF els[it.idx + 1].t = "hole" THEN Undef ELSE els[it.idx + 1], FALSE)))
+
+-----------------------------------------------------------------------------
+(* for-in / for-of (14.7.5) *)
+
+\* string-valued own keys of an object, in [[OwnPropertyKeys]] order
+StrKeysOf(o) == SelectSeq(OwnKeys(o), LAMBDA x : ~IsSymKey(x))
+
+RECURSIVE ForInAdvance(_, _, _, _)
+\* 14.7.5.10.2.1 %ForInIteratorPrototype%.next: [done, key, o, keys, vis]
+ForInAdvance(h, o, keys, vis) ==
+  IF keys = <<>>
+  THEN IF h[o].proto = 0 THEN [done |-> TRUE, key |-> <<>>, o |-> o, keys |-> <<>>, vis |-> vis]
+       ELSE ForInAdvance(h, h[o].proto, StrKeysOf(h[h[o].proto]), vis)
+  ELSE LET key == Head(keys)
+           d == OwnDesc(h[o], key)
+       IN IF key \in vis \/ Len(d) = 0 THEN ForInAdvance(h, o, Tail(keys), vis)
+          ELSE IF d[1].e THEN [done |-> FALSE, key |-> key, o |-> o, keys |-> Tail(keys), vis |-> vis \cup {key}]
+          ELSE ForInAdvance(h, o, Tail(keys), vis \cup {key})
+
+\* binds the next value of a for-in/of loop (14.7.5.7 ForIn/OfBodyEvaluation step 6.g-h): a fresh record with
+\* the loop's let/const names per iteration; var and assignment heads use PutValue
+ForBindNext(frm, val, kk) ==
+  LET n == N(frm.n)
+  IN IF n.kind \in {"let", "const"}
+     THEN /\ envs' = Append(envs, DeclEnv(frm.e, [x \in Range(BoundNames(pid, n.target)) |-> Uninit(IF n.kind = "const" THEN "const" ELSE "no")]))
+          /\ env' = Len(envs) + 1
+          /\ c' = OpBind(n.target, val, "init")
+          /\ k' = <<[frm EXCEPT !.st = "bind"]>> \o kk
+          /\ UNCHANGED <<heap, out, aux>>
+     ELSE GoE(OpBind(n.target, val, IF n.kind = "var" THEN "var" ELSE "assign"), <<[frm EXCEPT !.st = "bind"]>> \o kk, frm.e)
+
+\* for-in: next key or end of loop
+ForInNext(frm, val, kk) ==
+  LET r == ForInAdvance(heap, frm.o, frm.keys, frm.vis)
+  IN IF r.done THEN GoE(Ret(val), kk, frm.e)
+     ELSE ForBindNext([frm EXCEPT !.o = r.o, !.keys = r.keys, !.vis = r.vis, !.v = val], Str(r.key), kk)
+
+\* 14.7.5.6 ForIn/OfHeadEvaluation: the subject has been evaluated (in the TDZ record, now discarded)
+RetForHead ==
+  /\ fr.f = "forhead"
+  /\ LET n == N(fr.n)
+         base == [f |-> "forx", e |-> fr.e, n |-> fr.n, v |-> Undef, ls |-> fr.ls, st |-> "open", iter |-> Undef,
+                  o |-> 0, keys |-> <<>>, vis |-> {}]
+     IN IF n.t = "forof" THEN GoE(OpIterOpen(cv), <<base>> \o rest, fr.e)
+        ELSE IF IsNullish(cv) THEN GoE(Ret(Undef), rest, fr.e)
+        ELSE IF cv.t = "str" /\ cv.s # <<>> THEN OutOfModel("for-in over a string")
+        ELSE IF cv.t = "obj" /\ heap[cv.a].cls \in {"glob", "arriter", "gen"} THEN OutOfModel("for-in over an exotic object")
+        ELSE LET o == LookupStart(cv)
+             IN ForInNext([base EXCEPT !.o = o, !.keys = StrKeysOf(heap[o])], Undef, rest)
+
+RetForInOf ==
+  /\ fr.f = "forx"
+  /\ CASE fr.st = "open" -> Go(OpIterStep(cv), <<[fr EXCEPT !.st = "step", !.iter = cv]>> \o rest)
+       [] fr.st = "step" -> IF cv.done THEN GoE(Ret(fr.v), rest, fr.e) ELSE ForBindNext(fr, cv.v, rest)
+       [] fr.st = "bind" -> Go(Ev(N(fr.n).s), <<[fr EXCEPT !.st = "body"]>> \o rest)
+       [] fr.st = "body" ->
+            IF N(fr.n).t = "forof"
+            THEN GoE(OpIterStep(fr.iter), <<[fr EXCEPT !.st = "step", !.v = UpdateEmpty(cv, fr.v)]>> \o rest, fr.e)
+            ELSE ForInNext(fr, UpdateEmpty(cv, fr.v), rest)
+
+\* abrupt completion of the body or of the binding step: own continue goes on; anything else leaves the loop,
+\* closing the iterator of a for-of (14.7.5.7 steps 6.g.iv, 6.l.iii); errors of the iterator protocol itself
+\* (st open/step) propagate without closing
+AbrForInOf ==
+  /\ fr.f = "forx"
+  /\ LET isOf == N(fr.n).t = "forof"
+         val == UpdateEmpty(c.v, fr.v)
+     IN IF fr.st \in {"open", "step"} THEN GoE(c, rest, fr.e)
+        ELSE IF fr.st = "body" /\ ak = "continue" /\ (c.l = "" \/ c.l \in fr.ls)
+        THEN IF isOf THEN GoE(OpIterStep(fr.iter), <<[fr EXCEPT !.st = "step", !.v = val]>> \o rest, fr.e)
+             ELSE ForInNext(fr, val, rest)
+        ELSE LET comp == IF fr.st = "body" /\ ak = "break" /\ c.l = "" THEN Ret(val) ELSE AbrUpd(fr.v)
+             IN IF isOf THEN GoE(OpIterClose(fr.iter, comp), rest, fr.e) ELSE GoE(comp, rest, fr.e)
+
+-----------------------------------------------------------------------------
+(* Destructuring (8.6.2 BindingInitialization, 8.6.3 IteratorBindingInitialization, 13.15.5 destructuring     *)
+(* assignment).  mode "init" | "var" | "assign" as for OpBind.                                                *)
+
+IsPattern(n) == N(n).t \in {"arraypat", "objectpat"}
+
+\* array pattern: GetIterator first
+OpBindArrayPattern ==
+  /\ c.op = "bind" /\ N(c.pat).t = "arraypat"
+  /\ Go(OpIterOpen(c.v), Push([f |-> "piter", e |-> env, pat |-> c.pat, mode |-> c.mode, i |-> 0, iter |-> Undef,
+                               done |-> FALSE, st |-> "open", ref |-> Undef, val |-> Undef, acc |-> <<>>]))
+
+\* process element i+1 of the pattern, or finish (closing the iterator when it is not exhausted)
+PatIterNext(frm, kk) ==
+  LET els == N(frm.pat).elems
+      j == frm.i + 1
+      nf == [frm EXCEPT !.i = j, !.ref = Undef]
+  IN IF j > Len(els)
+     THEN IF frm.done THEN GoE(Ret(Empty), kk, frm.e) ELSE GoE(OpIterClose(frm.iter, Ret(Empty)), kk, frm.e)
+     ELSE LET el == N(els[j])
+          IN IF el.t # "hole" /\ frm.mode = "assign" /\ ~IsPattern(el.target)
+             THEN Go(EvRef(el.target), <<[nf EXCEPT !.st = "lref"]>> \o kk)           \* target reference first
+             ELSE IF el.t = "prest" THEN Go(Ret(StepRes(frm.done, Undef)), <<[nf EXCEPT !.st = "rest", !.acc = <<>>]>> \o kk)
+             ELSE IF frm.done THEN Go(Ret(StepRes(TRUE, Undef)), <<[nf EXCEPT !.st = "step"]>> \o kk)
+             ELSE Go(OpIterStep(frm.iter), <<[nf EXCEPT !.st = "step"]>> \o kk)
+
+\* bind value val to element el of frame frm (nested pattern, stored reference, or binding)
+PatBindElem(frm, target, val, kk) ==
+  IF frm.ref.t = "ref" THEN Go(OpPutV(frm.ref, val, Empty), <<[frm EXCEPT !.st = "bind"]>> \o kk)
+  ELSE Go(OpBind(target, val, frm.mode), <<[frm EXCEPT !.st = "bind"]>> \o kk)
+
+RetPatternIterator ==
+  /\ fr.f = "piter"
+  /\ LET els == N(fr.pat).elems
+         el == IF fr.i >= 1 THEN N(els[fr.i]) ELSE [t |-> "none"]
+     IN CASE fr.st = "open" -> PatIterNext([fr EXCEPT !.iter = cv], rest)
+          [] fr.st = "lref" ->
+               IF el.t = "prest" THEN Go(Ret(StepRes(fr.done, Undef)), <<[fr EXCEPT !.st = "rest", !.ref = cv, !.acc = <<>>]>> \o rest)
+               ELSE IF fr.done THEN Go(Ret(StepRes(TRUE, Undef)), <<[fr EXCEPT !.st = "step", !.ref = cv]>> \o rest)
+               ELSE Go(OpIterStep(fr.iter), <<[fr EXCEPT !.st = "step", !.ref = cv]>> \o rest)
+          [] fr.st = "step" ->
+               LET f2 == [fr EXCEPT !.done = cv.done]
+                   val == IF cv.done THEN Undef ELSE cv.v
+               IN IF el.t = "hole" THEN PatIterNext(f2, rest)
+                  ELSE IF val.t = "undef" /\ el.default # 0 THEN Go(Ev(el.default), <<[f2 EXCEPT !.st = "default"]>> \o rest)
+                  ELSE PatBindElem(f2, el.target, val, rest)
+          [] fr.st = "default" -> PatBindElem(fr, el.target, cv, rest)
+          [] fr.st = "bind" -> PatIterNext(fr, rest)
+          [] fr.st = "rest" ->
+               \* collect the remaining values into a fresh array, then bind it
+               IF cv.done
+               THEN LET f2 == [fr EXCEPT !.done = TRUE]
+                        ra == Len(heap) + 1
+                    IN /\ heap' = Append(heap, ArrObj(fr.acc))
+                       /\ UNCHANGED <<env, envs, out, aux>>
+                       /\ IF fr.ref.t = "ref" THEN c' = OpPutV(fr.ref, Obj(ra), Empty) /\ k' = <<[f2 EXCEPT !.st = "bind"]>> \o rest
+                          ELSE c' = OpBind(el.target, Obj(ra), fr.mode) /\ k' = <<[f2 EXCEPT !.st = "bind"]>> \o rest
+               ELSE IF Len(fr.acc) >= MaxArrayLen THEN OutOfModel("rest element too long")
+               ELSE Go(OpIterStep(fr.iter), <<[fr EXCEPT !.st = "rest1"]>> \o rest)
+          [] fr.st = "rest1" ->
+               Go(Ret(cv), <<[fr EXCEPT !.st = "rest", !.acc = IF cv.done THEN @ ELSE Append(@, cv.v)]>> \o rest)
+
+\* 8.6.2 / 13.15.5.2: an abrupt completion while the iterator is not exhausted closes it; errors thrown by the
+\* iterator itself (during open / step) mark it done and are passed on
+AbrPatternIterator ==
+  /\ fr.f = "piter"
+  /\ IF fr.st \in {"open", "step", "rest", "rest1"} \/ fr.done THEN GoE(c, rest, fr.e)
+     ELSE GoE(OpIterClose(fr.iter, c), rest, fr.e)
+
+\* object pattern: RequireObjectCoercible, then the properties in order (key, target reference, GetV, default, bind)
+OpBindObjectPattern ==
+  /\ c.op = "bind" /\ N(c.pat).t = "objectpat"
+  /\ IF IsNullish(c.v) THEN ThrowErr("TypeError", k)
+     ELSE Go(Ret(Empty), Push([f |-> "pobj", e |-> env, pat |-> c.pat, mode |-> c.mode, v |-> c.v, i |-> 0, st |-> "next",
+                               key |-> <<>>, ref |-> Undef, used |-> <<>>]))
+
+PatObjGet(frm, kk) == Go(OpGetV(PropRef(frm.v, KeyToValue(frm.key))), <<[frm EXCEPT !.st = "get"]>> \o kk)
+\* after the key is known: evaluate the target reference (assignment to a non-pattern), then read the property
+PatObjKeyed(frm, kk) ==
+  LET p == N(N(frm.pat).props[frm.i])
+  IN IF frm.mode = "assign" /\ ~IsPattern(p.target) THEN Go(EvRef(p.target), <<[frm EXCEPT !.st = "lref"]>> \o kk)
+     ELSE PatObjGet(frm, kk)
+
+RetPatternObject ==
+  /\ fr.f = "pobj"
+  /\ LET ps == N(fr.pat).props
+         p == IF fr.i >= 1 /\ fr.i <= Len(ps) THEN N(ps[fr.i]) ELSE [t |-> "none"]
+     IN CASE fr.st \in {"next", "bind"} ->
+               LET j == fr.i + 1
+                   nf == [fr EXCEPT !.i = j, !.ref = Undef]
+               IN IF j <= Len(ps)
+                  THEN IF N(ps[j]).computed THEN Go(Ev(N(ps[j]).k), <<[nf EXCEPT !.st = "key"]>> \o rest)
+                       ELSE PatObjKeyed([nf EXCEPT !.key = N(ps[j]).key, !.used = Append(@, N(ps[j]).key)], rest)
+                  ELSE IF N(fr.pat).rest = 0 \/ (fr.st = "bind" /\ fr.i > Len(ps)) THEN Go(Ret(Empty), rest)
+                  ELSE IF fr.mode = "assign" /\ ~IsPattern(N(N(fr.pat).rest).target)
+                  THEN Go(EvRef(N(N(fr.pat).rest).target), <<[nf EXCEPT !.st = "restref"]>> \o rest)
+                  ELSE Go(Ret(Undef), <<[nf EXCEPT !.st = "restref"]>> \o rest)
+          [] fr.st = "key" ->
+               IF cv.t = "obj" THEN Go(OpToPrim(cv, "string"), k)
+               ELSE PatObjKeyed([fr EXCEPT !.key = KeyOfPrim(cv), !.used = Append(@, KeyOfPrim(cv))], rest)
+          [] fr.st = "lref" -> PatObjGet([fr EXCEPT !.ref = cv], rest)
+          [] fr.st = "get" ->
+               IF cv.t = "undef" /\ p.default # 0 THEN Go(Ev(p.default), <<[fr EXCEPT !.st = "default"]>> \o rest)
+               ELSE PatBindElem(fr, p.target, cv, rest)
+          [] fr.st = "default" -> PatBindElem(fr, p.target, cv, rest)
+          [] fr.st = "restref" ->
+               \* 8.6.2 BindingRestProperty / 13.15.5.4: a fresh object receives the remaining properties
+               GoH(OpCopyProps(Len(heap) + 1, fr.v, fr.used), <<[fr EXCEPT !.st = "restcopy", !.ref = cv, !.key = <<Len(heap) + 1>>]>> \o rest,
+                   Append(heap, OrdObj(A_ObjectProto, <<>>)))
+          [] fr.st = "restcopy" ->
+               LET ro == Obj(fr.key[1])
+                   f2 == [fr EXCEPT !.st = "bind"]
+               IN IF fr.ref.t = "ref" THEN Go(OpPutV(fr.ref, ro, Empty), <<f2>> \o rest)
+                  ELSE Go(OpBind(N(N(fr.pat).rest).target, ro, fr.mode), <<f2>> \o rest)
+
+-----------------------------------------------------------------------------
+(* Generators (ECMA-262 27.5 Generator Objects, 15.5 generator functions).                                    *)
+(* A generator object keeps its suspended continuation: the frames between the point of suspension and the   *)
+(* generator boundary frame "genb", and the environment to resume in.                                         *)
+
+GenObj(proto, kont, genv) ==
+  [cls |-> "gen", proto |-> proto, props |-> <<>>, ext |-> TRUE, intr |-> FALSE,
+   state |-> "suspendedStart", kont |-> kont, genv |-> genv]
+
+\* 15.5.2 EvaluateGeneratorBody: after FunctionDeclarationInstantiation, OrdinaryCreateFromConstructor(F,
+\* "%GeneratorFunction.prototype.prototype%") and GeneratorStart: the object holding the not yet started body
+GenProtoOf(h, fa) ==
+  LET d == OwnDesc(h[fa], S_prototype)
+  IN IF Len(d) = 1 /\ ~d[1].acc /\ d[1].v.t = "obj" THEN d[1].v.a ELSE A_GeneratorProto
+NewGenerator(h, fa, f, e) == Append(h, GenObj(GenProtoOf(h, fa), <<[f |-> "seq", e |-> e, n |-> f, i |-> 0, v |-> Empty]>>, e))
+
+RECURSIVE FirstGenb(_, _)
+FirstGenb(kk, i) == IF kk[i].f = "genb" THEN i ELSE FirstGenb(kk, i + 1)
+
+\* 27.5.3.7 GeneratorYield(iterNextObj): suspend the running generator.  kk: the continuation at the point
+\* of suspension (top first), keep: frames that must stay on top of the saved continuation
+GenSuspend(h, resv, keep, kk) ==
+  LET gi == FirstGenb(kk, 1)
+      gb == kk[gi]
+  IN /\ heap' = [h EXCEPT ![gb.g].state = "suspendedYield", ![gb.g].kont = keep \o SubSeq(kk, 1, gi - 1), ![gb.g].genv = env]
+     /\ c' = Ret(resv)
+     /\ k' = SubSeq(kk, gi + 1, Len(kk))
+     /\ env' = gb.e
+     /\ aux' = [aux EXCEPT !.depth = @ - 1]
+     /\ UNCHANGED <<envs, out>>
+
+\* 15.5.5 yield: the operand value has been evaluated
+RetYield ==
+  /\ fr.f = "yield"
+  /\ IF N(fr.n).delegate THEN Go(OpIterOpen(cv), <<[f |-> "ydel", e |-> fr.e, st |-> "open", iter |-> Undef, mode |-> "next", r |-> Undef, rv |-> Undef]>> \o rest)
+     ELSE GenSuspend(Append(heap, IterResultObj(cv, FALSE)), Obj(Len(heap) + 1), <<>>, rest)
+
+\* 27.5.3.3 GeneratorResume / 27.5.3.4 GeneratorResumeAbrupt: continue generator g with control cc
+GenResume(g, cc, kk) ==
+  /\ heap' = [heap EXCEPT ![g].state = "executing", ![g].kont = <<>>]
+  /\ c' = cc
+  /\ k' = heap[g].kont \o <<[f |-> "genb", e |-> env, g |-> g]>> \o kk
+  /\ env' = heap[g].genv
+  /\ aux' = [aux EXCEPT !.depth = @ + 1]
+  /\ UNCHANGED <<envs, out>>
+
+\* the generator finished: state completed; cc is what the caller gets
+GenFinish(g, h, cc, kk, e0) ==
+  /\ heap' = [h EXCEPT ![g].state = "completed", ![g].kont = <<>>]
+  /\ c' = cc /\ k' = kk /\ env' = e0
+  /\ aux' = [aux EXCEPT !.depth = @ - 1]
+  /\ UNCHANGED <<envs, out>>
+
+\* body ran to its end: { value: undefined, done: true }
+RetGeneratorBoundary ==
+  /\ fr.f = "genb"
+  /\ GenFinish(fr.g, Append(heap, IterResultObj(Undef, TRUE)), Ret(Obj(Len(heap) + 1)), rest, fr.e)
+\* return completion: { value: v, done: true }; a throw completion passes to the caller of next/throw/return
+AbrGeneratorBoundary ==
+  /\ fr.f = "genb"
+  /\ IF ak = "return" THEN GenFinish(fr.g, Append(heap, IterResultObj(c.v, TRUE)), Ret(Obj(Len(heap) + 1)), rest, fr.e)
+     ELSE GenFinish(fr.g, heap, c, rest, fr.e)
+
+\* 27.5.1.2-4 %GeneratorPrototype%.next / return / throw with 27.5.3.2 GeneratorValidate
+CallGeneratorNatives(nm) ==
+  IF c.this.t # "obj" \/ heap[c.this.a].cls # "gen" THEN ThrowErr("TypeError", k)
+  ELSE LET g == c.this.a
+           st == heap[g].state
+           a1 == IF Len(c.args) >= 1 THEN c.args[1] ELSE Undef
+       IN IF st = "executing" THEN ThrowErr("TypeError", k)
+          ELSE CASE nm = "Generator.prototype.next" ->
+                      IF st = "completed" THEN GoH(Ret(Obj(Len(heap) + 1)), k, Append(heap, IterResultObj(Undef, TRUE)))
+                      ELSE GenResume(g, IF st = "suspendedStart" THEN Ret(Empty) ELSE Ret(a1), k)
+                 [] nm = "Generator.prototype.return" ->
+                      IF st \in {"completed", "suspendedStart"}
+                      THEN GoH(Ret(Obj(Len(heap) + 1)), k, Append([heap EXCEPT ![g].state = "completed", ![g].kont = <<>>], IterResultObj(a1, TRUE)))
+                      ELSE GenResume(g, Abr("return", a1, ""), k)
+                 [] nm = "Generator.prototype.throw" ->
+                      IF st \in {"completed", "suspendedStart"}
+                      THEN GoH(Abr("throw", a1, ""), k, [heap EXCEPT ![g].state = "completed", ![g].kont = <<>>])
+                      ELSE GenResume(g, Abr("throw", a1, ""), k)
+
+\* 15.5.5 yield* (delegation): the frame "ydel" stays in the generator's continuation while it is suspended
+\* inside the delegation; received next / throw / return completions are forwarded to the inner iterator
+YdelCall(frm, m, arg, st, mode, kk) ==
+  IF ~IsCallable(heap, m) THEN ThrowErr("TypeError", kk)
+  ELSE Go(CallC(m, frm.iter.it, <<arg>>, Undef), <<[frm EXCEPT !.st = st, !.mode = mode]>> \o kk)
+RetYieldDelegate ==
+  /\ fr.f = "ydel"
+  /\ CASE fr.st = "open" -> YdelCall([fr EXCEPT !.iter = cv], cv.nx, Undef, "res", "next", rest)
+       [] fr.st = "susp" -> YdelCall(fr, fr.iter.nx, cv, "res", "next", rest)
+       [] fr.st = "res" ->
+            IF cv.t # "obj" THEN ThrowErr("TypeError", rest)
+            ELSE Go(OpGetV(PropRef(cv, Str(S_done))), <<[fr EXCEPT !.st = "done", !.r = cv]>> \o rest)
+       [] fr.st = "done" ->
+            IF ToBoolean(cv) THEN Go(OpGetV(PropRef(fr.r, Str(S_value))), <<[fr EXCEPT !.st = "val"]>> \o rest)
+            ELSE GenSuspend(heap, fr.r, <<[fr EXCEPT !.st = "susp"]>>, rest)
+       [] fr.st = "val" -> IF fr.mode = "return" THEN Go(Abr("return", cv, ""), rest) ELSE Go(Ret(cv), rest)
+       [] fr.st = "throwm" ->
+            IF IsNullish(cv) THEN GoE(OpIterClose(fr.iter, Ret(Empty)), <<[f |-> "terr", e |-> fr.e]>> \o rest, fr.e)
+            ELSE YdelCall(fr, cv, fr.rv, "res", "throw", rest)
+       [] fr.st = "retm" ->
+            IF IsNullish(cv) THEN Go(Abr("return", fr.rv, ""), rest)
+            ELSE YdelCall(fr, cv, fr.rv, "res", "return", rest)
+\* a throw / return completion delivered by GeneratorResumeAbrupt while suspended in the delegation
+AbrYieldDelegate ==
+  /\ fr.f = "ydel"
+  /\ IF fr.st = "susp" /\ ak = "throw" THEN GoE(OpGetV(PropRef(fr.iter.it, Str(S_throw))), <<[fr EXCEPT !.st = "throwm", !.rv = c.v]>> \o rest, fr.e)
+     ELSE IF fr.st = "susp" /\ ak = "return" THEN GoE(OpGetV(PropRef(fr.iter.it, Str(S_return))), <<[fr EXCEPT !.st = "retm", !.rv = c.v]>> \o rest, fr.e)
+     ELSE GoE(c, rest, fr.e)
+RetThrowTypeError == fr.f = "terr" /\ ThrowErr("TypeError", rest)
+
+-----------------------------------------------------------------------------
+(* Classes (ECMA-262 15.7 ClassDefinitionEvaluation).  The flattener supplies an explicit constructor member   *)
+(* (the default constructors of 15.7.14 step 14 are synthesised as                                             *)
+(* constructor(){} / constructor(...args){ super(...args) }).                                                   *)
+(* A class constructor keeps its instance fields in `fields`: <<[key, init (node or 0), env]>>.                *)
+
+OpFields(o, fa, i) == [m |-> "op", op |-> "fields", o |-> o, fa |-> fa, i |-> i]
+
+CtorMember(n) == LET ms == N(n).members IN CHOOSE i \in DOMAIN ms : N(ms[i]).kind = "ctor"
+
+\* 15.7.14 steps 1-13: class scope with the (uninitialised) class binding, then the heritage
+RetClassStart ==
+  /\ fr.f = "class0"
+  /\ LET n == N(fr.n)
+         ce == Len(envs) + 1
+         es1 == Append(envs, DeclEnv(env, IF n.name = "" THEN NoBindings ELSE (n.name :> Uninit("const"))))
+     IN /\ envs' = es1 /\ env' = ce
+        /\ UNCHANGED <<heap, out, aux>>
+        /\ IF n.super # 0 THEN c' = Ev(n.super) /\ k' = <<[f |-> "class1", e |-> fr.e, n |-> fr.n]>> \o rest
+           ELSE c' = Ret(Empty) /\ k' = <<[f |-> "class1", e |-> fr.e, n |-> fr.n]>> \o rest
+
+\* steps 8-14: protoParent / constructorParent, the prototype object, the constructor function
+RetClassHeritage ==
+  /\ fr.f = "class1"
+  /\ LET n == N(fr.n)
+         has == n.super # 0
+         pd == IF has /\ cv.t = "obj" THEN FindProp(heap, cv.a, S_prototype) ELSE <<>>
+         protoParent == IF ~has THEN A_ObjectProto ELSE IF cv.t = "null" THEN 0
+                        ELSE IF Len(pd) = 1 /\ pd[1].v.t = "obj" THEN pd[1].v.a ELSE 0
+         ctorParent == IF ~has \/ cv.t = "null" THEN A_FunctionProto ELSE cv.a
+         pa == Len(heap) + 1          \* the prototype object
+         fa == Len(heap) + 2          \* the constructor
+         ctor == N(n.members[CtorMember(fr.n)]).v
+         fobj == [FunObj(ctor, env, pa, IF has THEN "classderived" ELSE "classbase", FALSE, fa) EXCEPT
+                    !.proto = ctorParent,
+                    !.props = @ \o <<[HiddenProp(S_prototype, Obj(pa)) EXCEPT !.w = FALSE, !.c = FALSE]>>]
+         pobj == OrdObj(protoParent, <<HiddenProp(S_constructor, Obj(fa))>>)
+     IN IF has /\ cv.t # "null" /\ ~IsConstructor(heap, cv) THEN ThrowErr("TypeError", rest)
+        ELSE IF has /\ cv.t = "obj" /\ (Len(pd) = 0 \/ pd[1].acc \/ pd[1].v.t = "oom") THEN OutOfModel("superclass prototype")
+        ELSE IF has /\ cv.t = "obj" /\ pd[1].v.t \notin {"obj", "null"} THEN ThrowErr("TypeError", rest)
+        ELSE GoH(Ret(Empty), <<[f |-> "class2", e |-> fr.e, n |-> fr.n, fa |-> fa, pa |-> pa, i |-> 0, sf |-> <<>>]>> \o rest,
+                 heap \o <<pobj, fobj>>)
+
+\* steps 15-: ClassElementEvaluation in order.  Methods and accessors are defined (non-enumerable) on the
+\* prototype or, when static, on the constructor; field names are evaluated now, their initialisers run later
+ClassDefine(frm, m, key, kk) ==
+  LET tgt == IF m.static THEN frm.fa ELSE frm.pa
+  IN CASE m.kind = "method" ->
+            LET h1 == AllocFun(heap, m.v, env, tgt, MethodKind(m.v))
+            IN GoH(Ret(Empty), kk, [h1 EXCEPT ![tgt] = DefineOwn(@, HiddenProp(key, Obj(Len(heap) + 1)))])
+       [] m.kind \in {"get", "set"} ->
+            LET h1 == AllocFun(heap, m.v, env, tgt, "method")
+                o1 == DefineAccessor(h1[tgt], key, m.kind, Obj(Len(heap) + 1))
+                j == PropIdx(o1.props, key)
+            IN GoH(Ret(Empty), kk, [h1 EXCEPT ![tgt] = [o1 EXCEPT !.props[j].e = FALSE]])
+       [] m.kind = "field" ->
+            IF m.static THEN Go(Ret(Empty), <<[Head(kk) EXCEPT !.sf = Append(@, [key |-> key, init |-> m.v, env |-> env])]>> \o Tail(kk))
+            ELSE GoH(Ret(Empty), kk, [heap EXCEPT ![frm.fa].fields = Append(@, [key |-> key, init |-> m.v, env |-> env])])
+RetClassElements ==
+  /\ fr.f = "class2"
+  /\ LET ms == N(fr.n).members
+         j == fr.i + 1
+         nf == [fr EXCEPT !.i = j]
+     IN IF j <= Len(ms)
+        THEN LET m == N(ms[j])
+             IN IF m.kind = "ctor" THEN Go(Ret(Empty), <<nf>> \o rest)
+                ELSE IF m.computed THEN Go(Ev(m.k), <<[f |-> "classk", e |-> env, mn |-> ms[j]], nf>> \o rest)
+                ELSE ClassDefine(nf, m, m.key, <<nf>> \o rest)
+        ELSE \* the class binding is initialised, then the static fields run with this = the constructor
+             LET nm == N(fr.n).name
+                 es1 == IF nm = "" THEN envs ELSE [envs EXCEPT ![env].b[nm] = Binding(Obj(fr.fa), TRUE, "const")]
+             IN /\ envs' = es1
+                /\ c' = [m |-> "op", op |-> "sfields", o |-> Obj(fr.fa), fs |-> fr.sf, i |-> 1]
+                /\ k' = <<[f |-> "class3", e |-> fr.e, n |-> fr.n, fa |-> fr.fa]>> \o rest
+                /\ UNCHANGED <<env, heap, out, aux>>
+RetClassKey ==
+  /\ fr.f = "classk"
+  /\ IF cv.t = "obj" THEN Go(OpToPrim(cv, "string"), k)
+     ELSE ClassDefine(Head(rest), N(fr.mn), KeyOfPrim(cv), rest)
+\* 15.7.15 / 15.7.16: a class declaration initialises its (let-like) binding in the enclosing scope
+RetClassDone ==
+  /\ fr.f = "class3"
+  /\ IF N(fr.n).t = "class"
+     THEN /\ envs' = [envs EXCEPT ![LookupEnv(envs, fr.e, N(fr.n).name)].b[N(fr.n).name] = Binding(Obj(fr.fa), TRUE, "no")]
+          /\ c' = Ret(Empty) /\ k' = rest /\ env' = fr.e
+          /\ UNCHANGED <<heap, out, aux>>
+     ELSE GoE(Ret(Obj(fr.fa)), rest, fr.e)
+
+\* 7.3.34 InitializeInstanceElements / DefineField: each initialiser is evaluated like a method body with
+\* this = the receiver (a fresh function record), then CreateDataPropertyOrThrow
+FieldStep(o, fs, i, fobj, kk, after) ==
+  IF i > Len(fs) THEN after
+  ELSE LET fd == fs[i]
+       IN IF fd.init = 0 THEN
+               IF heap[o.a].ext
+               THEN GoH([c EXCEPT !.i = i + 1], kk, [heap EXCEPT ![o.a] = DefineOwn(@, DataProp(fd.key, Undef))])
+               ELSE ThrowErr("TypeError", kk)
+          ELSE /\ envs' = Append(envs, FunEnv(fd.env, NoBindings, "init", o, fobj, Undef))
+               /\ env' = Len(envs) + 1
+               /\ c' = Ev(fd.init)
+               /\ k' = <<[f |-> "fieldv", e |-> env, cont |-> [c EXCEPT !.i = i + 1], key |-> fd.key, o |-> o]>> \o kk
+               /\ UNCHANGED <<heap, out, aux>>
+OpInstanceFields == c.op = "fields" /\ FieldStep(c.o, heap[c.fa].fields, c.i, c.fa, k, Go(Ret(Empty), k))
+OpStaticFields == c.op = "sfields" /\ FieldStep(c.o, c.fs, c.i, c.o.a, k, Go(Ret(Empty), k))
+RetFieldValue ==
+  /\ fr.f = "fieldv"
+  /\ IF ~heap[fr.o.a].ext THEN ThrowErr("TypeError", rest)
+     ELSE /\ heap' = [heap EXCEPT ![fr.o.a] = DefineOwn(@, DataProp(fr.key, cv))]
+          /\ c' = fr.cont /\ k' = rest /\ env' = fr.e
+          /\ UNCHANGED <<envs, out, aux>>
+
+\* [[Construct]] of a base class with instance fields: the fields are initialised before the body (10.2.2 step 7)
+RetConstructorFieldsDone == fr.f = "ctor_go" /\ Go(fr.call, rest)
+
+\* 13.3.7.1 SuperCall steps 7-10: bind this (a second super() throws), initialise the fields, yield the object
+RetSuperCall ==
+  /\ fr.f = "super_r"
+  /\ LET te == fr.te
+         F == envs[te].fe[1].fobj
+     IN IF envs[te].fe[1].ts # "uninit" THEN ThrowErr("ReferenceError", rest)
+        ELSE /\ envs' = [envs EXCEPT ![te].fe[1].ts = "init", ![te].fe[1].this = cv]
+             /\ c' = OpFields(cv, F, 1)
+             /\ k' = <<[f |-> "constv", e |-> fr.e, v |-> cv]>> \o rest
+             /\ UNCHANGED <<env, heap, out, aux>>
 
 -----------------------------------------------------------------------------
 (* Calls (ECMA-262 10.2 ordinary function objects, 13.3.6 EvaluateCall, 13.3.5 EvaluateNew) *)
@@ -1506,13 +2181,14 @@ CallClosure ==
          fn == N(f)
          isNew == c.nt.t # "undef"
          derived == fo.fk = "classderived"
-         needObj == isNew /\ ~derived
+         needObj == isNew /\ ~derived /\ c.pre.t = "undef"
          proto == IF needObj THEN ProtoFromCtor(c.nt, A_ObjectProto) ELSE 0
          newObj == Obj(Len(heap) + 1)
          h1 == IF needObj THEN Append(heap, OrdObj(proto, <<>>)) ELSE heap
          \* 10.2.1.2 OrdinaryCallBindThis
          ts == IF fo.fk = "arrow" THEN "lexical" ELSE IF isNew /\ derived THEN "uninit" ELSE "init"
          thisv == IF needObj THEN newObj
+                  ELSE IF c.pre.t = "obj" THEN c.pre
                   ELSE IF Strict \/ fo.fk = "arrow" THEN c.this
                   ELSE IF IsNullish(c.this) THEN Obj(A_Global) ELSE c.this
          fe == Len(envs) + 1
@@ -1524,12 +2200,19 @@ CallClosure ==
          pB == IF simple THEN [x \in Range(names) |-> Binding(SimpleParamValue(names, c.args, x), TRUE, "no")]
                ELSE [x \in Range(names) |-> Uninit("no")]
          es1 == Append(envs, FunEnv(fo.env, pB @@ argB, ts, thisv, c.f.a, c.nt))
-         cb == [f |-> "callb", e |-> env, new |-> isNew, thisv |-> IF needObj THEN newObj ELSE Undef, fe |-> fe, fk |-> fo.fk]
+         cb == [f |-> "callb", e |-> env, new |-> isNew, thisv |-> IF isNew /\ ~derived THEN thisv ELSE Undef, fe |-> fe, fk |-> fo.fk]
      IN IF fo.fk \in {"classbase", "classderived"} /\ ~isNew THEN ThrowErr("TypeError", k)
         ELSE IF proto = -1 THEN OutOfModel("accessor prototype")
         ELSE IF ~Strict /\ ~isNew /\ fo.fk # "arrow" /\ IsPrim(c.this) /\ ~IsNullish(c.this) THEN OutOfModel("this wrapper object")
         ELSE IF wantArgs /\ simple /\ ~Strict THEN OutOfModel("mapped arguments object")
-        ELSE IF needObj /\ fo.fields # <<>> THEN OutOfModel("fields") \* replaced below when classes are enabled
+        ELSE IF needObj /\ fo.fields # <<>>
+        THEN \* 10.2.2 step 7: InitializeInstanceElements before the body; the call is then re-issued with the object
+             GoH(OpFields(newObj, c.f.a, 1), Push([f |-> "ctor_go", e |-> env, call |-> [c EXCEPT !.pre = newObj]]), h1)
+        ELSE IF simple /\ fo.fk = "gen"
+        THEN LET r == FDIBody(f, fe, es1, h2)
+             IN /\ envs' = r.es /\ heap' = NewGenerator(r.h, c.f.a, f, r.e)
+                /\ c' = Ret(Obj(Len(r.h) + 1))
+                /\ UNCHANGED <<env, k, out, aux>>
         ELSE IF simple
         THEN LET r == FDIBody(f, fe, es1, h2)
              IN /\ envs' = r.es /\ heap' = r.h /\ env' = r.e
@@ -1553,10 +2236,15 @@ RetParameters ==
          nxt == <<[fr EXCEPT !.i = j]>> \o rest
      IN IF j > Len(ps)
         THEN LET r == FDIBody(fr.n, fr.e, envs, heap)
-             IN /\ envs' = r.es /\ heap' = r.h /\ env' = r.e
-                /\ c' = BodyStart(fr.n)
-                /\ k' = BodyFrames(fr.n, r.e, Head(rest)) \o Tail(rest)
-                /\ UNCHANGED <<out, aux>>
+                 fa == envs[fr.e].fe[1].fobj
+             IN IF heap[fa].fk = "gen"
+                THEN /\ envs' = r.es /\ heap' = NewGenerator(r.h, fa, fr.n, r.e)
+                     /\ c' = Abr("return", Obj(Len(r.h) + 1), "") /\ k' = rest
+                     /\ UNCHANGED <<env, out, aux>>
+                ELSE /\ envs' = r.es /\ heap' = r.h /\ env' = r.e
+                     /\ c' = BodyStart(fr.n)
+                     /\ k' = BodyFrames(fr.n, r.e, Head(rest)) \o Tail(rest)
+                     /\ UNCHANGED <<out, aux>>
         ELSE LET pa == N(ps[j])
                  val == IF j <= Len(fr.args) THEN fr.args[j] ELSE Undef
              IN IF pa.rest
@@ -1607,6 +2295,38 @@ CallNotCallable == ~IsCallable(heap, c.f) /\ ThrowErr("TypeError", k)
 \* ToString of a primitive argument for built-ins (objects would run user code: not modelled there)
 ArgOr(args, i) == IF i <= Len(args) THEN args[i] ELSE Undef
 
+\* 23.1.3.18 Array.prototype.join: length is read once, the elements live; holes, undefined and null give "";
+\* an object element is converted with ToString (ToPrimitive hint string), which may run user code
+ElemStrKind(e) == CASE e.t \in {"hole", "undef", "null"} -> "empty" [] e.t = "obj" -> "obj" [] e.t = "sym" -> "sym" [] OTHER -> "prim"
+RECURSIVE JoinRun(_, _, _, _, _)
+\* consumes primitive elements from index i: [i, acc, stop] with stop "end" | "obj" | "sym" | "oom"
+JoinRun(elems, sep, len, i, acc) ==
+  IF i > len THEN [i |-> i, acc |-> acc, stop |-> "end"]
+  ELSE LET e == IF i <= Len(elems) THEN elems[i] ELSE Undef
+           kd == ElemStrKind(e)
+           pre == IF i > 1 THEN sep ELSE <<>>
+       IN IF kd \in {"obj", "sym"} THEN [i |-> i, acc |-> acc, stop |-> kd]
+          ELSE LET piece == pre \o (IF kd = "empty" THEN <<>> ELSE PrimToStr(e))
+               IN IF Len(acc) + Len(piece) > MaxStrLen THEN [i |-> i, acc |-> acc, stop |-> "oom"]
+                  ELSE JoinRun(elems, sep, len, i + 1, acc \o piece)
+JoinContinue(frm, kk) ==
+  LET r == JoinRun(heap[frm.a].elems, frm.sep, frm.len, frm.i, frm.acc)
+  IN CASE r.stop = "end" -> Go(Ret(Str(r.acc)), kk)
+       [] r.stop = "oom" -> Go(Ret(OOM), kk)
+       [] r.stop = "sym" -> ThrowErr("TypeError", kk)
+       [] r.stop = "obj" -> Go(OpToPrim(heap[frm.a].elems[r.i], "string"), <<[frm EXCEPT !.i = r.i, !.acc = r.acc]>> \o kk)
+ArrayJoin(arr, sepv, kk) ==
+  IF arr.t # "obj" \/ heap[arr.a].cls # "arr" \/ sepv.t \in {"obj", "sym"} THEN OutOfModel("join on a non-array or with an object separator")
+  ELSE JoinContinue([f |-> "join", e |-> env, a |-> arr.a, sep |-> IF sepv.t = "undef" THEN S_comma ELSE PrimToStr(sepv),
+                     len |-> Len(heap[arr.a].elems), i |-> 1, acc |-> <<>>], kk)
+\* the string conversion of element i is known
+RetJoinElement ==
+  /\ fr.f = "join"
+  /\ IF cv.t = "sym" THEN ThrowErr("TypeError", rest)
+     ELSE LET piece == (IF fr.i > 1 THEN fr.sep ELSE <<>>) \o PrimToStr(cv)
+          IN IF Len(fr.acc) + Len(piece) > MaxStrLen THEN Go(Ret(OOM), rest)
+             ELSE JoinContinue([fr EXCEPT !.i = fr.i + 1, !.acc = fr.acc \o piece], rest)
+
 \* Built-in functions with native rules
 CallNative ==
   /\ c.f.t = "obj" /\ heap[c.f.a].cls = "nat"
@@ -1643,7 +2363,87 @@ CallNative ==
                ELSE /\ aux' = [aux EXCEPT !.nsym = @ + 1, !.sd = Append(@, IF a1.t = "undef" THEN <<>> ELSE PrimToStr(a1))]
                     /\ c' = Ret(Sym(aux.nsym + 1))
                     /\ UNCHANGED <<env, k, envs, heap, out>>
+          [] nm \in {"Array.prototype.values", "ArrayIterator.next"} -> CallArrayIterNatives(nm)
+          [] nm \in {"Generator.prototype.next", "Generator.prototype.return", "Generator.prototype.throw"} -> CallGeneratorNatives(nm)
+          [] nm = "Iterator.prototype[@@iterator]" -> Go(Ret(c.this), k)
+          [] nm = "Error.prototype.toString" ->
+               \* 20.5.3.4: name (default "Error") and message (default ""), data properties holding primitives only
+               IF c.this.t # "obj" THEN ThrowErr("TypeError", k)
+               ELSE LET dn == FindProp(heap, c.this.a, S_name)
+                        dm == FindProp(heap, c.this.a, S_message)
+                        bad(d) == Len(d) > 0 /\ (d[1].acc \/ d[1].v.t \in {"obj", "oom", "sym"})
+                        nmS == IF Len(dn) = 0 \/ dn[1].v.t = "undef" THEN S_Error ELSE PrimToStr(dn[1].v)
+                        msS == IF Len(dm) = 0 \/ dm[1].v.t = "undef" THEN <<>> ELSE PrimToStr(dm[1].v)
+                    IN IF bad(dn) \/ bad(dm) THEN OutOfModel("Error.prototype.toString on unmodelled name/message")
+                       ELSE IF nmS = <<>> THEN Go(Ret(Str(msS)), k)
+                       ELSE IF msS = <<>> THEN Go(Ret(Str(nmS)), k)
+                       ELSE Go(Ret(Concat(nmS \o <<58, 32>>, msS)), k)
+          [] nm = "Array.prototype.join" -> ArrayJoin(c.this, a1, k)
+          [] nm = "Array.prototype.toString" ->
+               \* 23.1.3.36: calls this.join when it is callable (here: when it is still the built-in)
+               LET j == IF c.this.t = "obj" THEN FindProp(heap, c.this.a, S_join) ELSE <<>>
+               IN IF Len(j) = 1 /\ ~j[1].acc /\ j[1].v = Obj(A_ArrJoin) THEN ArrayJoin(c.this, Undef, k)
+                  ELSE OutOfModel("Array.prototype.toString with a replaced join")
+          [] nm = "Array.prototype.push" ->
+               IF c.this.t # "obj" \/ heap[c.this.a].cls # "arr" \/ ~heap[c.this.a].ext THEN OutOfModel("push on a non-array")
+               ELSE IF Len(heap[c.this.a].elems) + Len(c.args) > MaxArrayLen THEN OutOfModel("array too long")
+               ELSE GoH(Ret(Num(Len(heap[c.this.a].elems) + Len(c.args))), k, [heap EXCEPT ![c.this.a].elems = @ \o c.args])
           [] OTHER -> OutOfModel("built-in " \o nm)
+
+-----------------------------------------------------------------------------
+(* Dispatch tables of the rules defined above *)
+
+ExtraRetFrames == {"objlit", "objk", "objv", "objspread", "iter_o", "iter_n", "step_r", "step_d", "step_v", "iterclose",
+                   "collect", "forhead", "forx", "piter", "pobj", "yield", "ydel", "genb", "terr",
+                   "class0", "class1", "class2", "classk", "class3", "fieldv", "ctor_go", "super_r", "join", "cpy"}
+ExtraRetRules ==
+  CASE fr.f = "objlit" -> RetObjectLiteral
+    [] fr.f = "objk" -> RetObjectKey
+    [] fr.f = "objv" -> RetObjectValue
+    [] fr.f = "objspread" -> RetObjectSpread
+    [] fr.f = "iter_o" -> RetIteratorObject
+    [] fr.f = "iter_n" -> RetIteratorNext
+    [] fr.f = "step_r" -> RetStepResult
+    [] fr.f = "step_d" -> RetStepDone
+    [] fr.f = "step_v" -> RetStepValue
+    [] fr.f = "iterclose" -> RetIteratorClose
+    [] fr.f = "collect" -> RetCollect
+    [] fr.f = "forhead" -> RetForHead
+    [] fr.f = "forx" -> RetForInOf
+    [] fr.f = "piter" -> RetPatternIterator
+    [] fr.f = "pobj" -> RetPatternObject
+    [] fr.f = "yield" -> RetYield
+    [] fr.f = "ydel" -> RetYieldDelegate
+    [] fr.f = "genb" -> RetGeneratorBoundary
+    [] fr.f = "terr" -> RetThrowTypeError
+    [] fr.f = "class0" -> RetClassStart
+    [] fr.f = "class1" -> RetClassHeritage
+    [] fr.f = "class2" -> RetClassElements
+    [] fr.f = "classk" -> RetClassKey
+    [] fr.f = "class3" -> RetClassDone
+    [] fr.f = "fieldv" -> RetFieldValue
+    [] fr.f = "ctor_go" -> RetConstructorFieldsDone
+    [] fr.f = "super_r" -> RetSuperCall
+    [] fr.f = "join" -> RetJoinElement
+    [] fr.f = "cpy" -> RetCopyDataProperties
+ExtraAbrFrames == {"iterclose", "forx", "piter", "genb", "ydel"}
+ExtraAbrRules ==
+  CASE fr.f = "iterclose" -> AbrIteratorClose
+    [] fr.f = "forx" -> AbrForInOf
+    [] fr.f = "piter" -> AbrPatternIterator
+    [] fr.f = "genb" -> AbrGeneratorBoundary
+    [] fr.f = "ydel" -> AbrYieldDelegate
+ExtraOpRules ==
+  CASE c.op = "iteropen" -> OpIteratorOpen
+    [] c.op = "iterstep" -> OpIteratorStep
+    [] c.op = "iterclose" -> OpIteratorClose
+    [] c.op = "copyprops" -> OpCopyDataProperties
+    [] c.op = "fields" -> OpInstanceFields
+    [] c.op = "sfields" -> OpStaticFields
+    [] c.op = "bind" /\ N(c.pat).t = "arraypat" -> OpBindArrayPattern
+    [] c.op = "bind" /\ N(c.pat).t = "objectpat" -> OpBindObjectPattern
+    [] OTHER -> OutOfModel("no rule for operation " \o c.op)
+ExtraCallRules == OutOfModel("no rule for callee class " \o heap[c.f.a].cls)
 
 CallRules ==
   /\ c.m = "call"
@@ -1922,7 +2722,7 @@ OpRules ==
        [] OTHER -> ExtraOpRules
 
 \* the value left the modelled domain (Values.tla OOM)
-RetOutOfModelValue == c.m = "ret" /\ c.v.t = "oom" /\ OutOfModel("value outside the modelled domain")
+RetOutOfModelValue == c.m = "ret" /\ c.v.t = "oom" /\ OutOfModel("value outside the modelled domain" \o (IF k = <<>> THEN "" ELSE " in " \o fr.f))
 
 \* 16.1.6 ScriptEvaluation ends: normal completion (empty |-> undefined) or an uncaught throw
 FinishNormal == c.m = "ret" /\ c.v.t # "oom" /\ k = <<>> /\ c' = Done("value", UpdateEmpty(c.v, Undef)) /\ UNCHANGED <<env, k, envs, heap, out, aux>>
@@ -1988,7 +2788,7 @@ KontOK ==
 \* heap well-formed: prototype links and function environments point to existing things
 HeapOK ==
   \A a \in DOMAIN heap :
-     /\ heap[a].proto \in 0..Len(heap)
+     /\ heap[a].proto \in 0..Len(heap) /\ heap[a].proto # a
      /\ heap[a].cls = "fun" => heap[a].env \in 1..Len(envs)
 
 \* the print trace only contains rendered values
